@@ -173,6 +173,11 @@ func (c *RegConfig) ParseOrResolveBlocklisted(provided string) (string, bool) {
 	if addr == nil || c.isBlocklistedCovertAddr(addr.IP) {
 		return "", lookup
 	}
+	if addr.IP.To4() != nil {
+		// a zone means nothing for an IPv4 address ("[::ffff:1.2.3.4%eth0]:80" parses with one), and
+		// "1.2.3.4%eth0" is not an IP literal: net.Dial would look it up as a name.
+		addr.Zone = ""
+	}
 	return net.JoinHostPort(addr.String(), port), lookup
 }
 
